@@ -44,6 +44,7 @@ MapStr = _Ty('MapStr')
 DictStrObj = _Ty('DictStrObj')
 DictStrStr = _Ty('DictStrStr')
 Callback = _Ty('Callback')
+ClassRef = _Ty('ClassRef')        # the class object itself (classmethods)
 Conn = _Ty('Conn')                # sqlite3 connection of the named store class (pyvc/sqlmodel.py)
 Table = _Ty('Table')              # abstract table state
 TupleObj = _Ty('TupleObj')        # tuple of arbitrary objects, symbolic length
@@ -138,3 +139,20 @@ def requires(*a, **k):
 
 
 ensures = modifies = raises = propagates = decreases = invariant = trigger = use = check = hint = partial = requires
+
+
+def bxor(a, b):
+    return a ^ b
+
+
+def py_utf8(s):
+    """str.encode('utf-8') on a sequence of code points"""
+    return list(''.join(map(chr, s)).encode('utf-8'))
+
+
+def py_lower(s):
+    return [ord(x) for x in ''.join(map(chr, s)).lower()]
+
+
+def py_replace(s, a, b):
+    return [ord(x) for x in ''.join(map(chr, s)).replace(''.join(map(chr, a)), ''.join(map(chr, b)))]
